@@ -228,8 +228,10 @@ class Monitor:
 # A case is a JSON-able dict:
 #   fam, syntax ('dtml'|'comment'|'epfs'|'entity'), mods [names in written order], value,
 #   wrap (bool), via ('name' | python expression over x), ctx ('kw'|'mapping'|'client'|
-#   'callable'|'taintwrapper'|'in'|'let'), guard (bool), and optional fmt, cfmt, size, etc,
+#   'callable'|'taintwrapper'|'in'|'let'| one of STORED_CTXS), guard (bool), and optional fmt, cfmt, size, etc,
 #   null, missing, url.
+# value sources in which the marked value is kept on a template object (see call_template)
+STORED_CTXS = ('default', 'defmap', 'var', 'copied', 'state', 'rendered_then_copied')
 DEFAULTS = dict(fam='?', syntax='dtml', mods=(), wrap=False, via='name', ctx='kw', guard=False,
                 fmt=None, cfmt=None, size=None, etc=None, null=None, missing=None, url=False)
 
@@ -357,6 +359,34 @@ def call_template(tmpl, c, T):
         return tmpl(None, RequestLike({'x': c['value']}, {'x': val}), **extra)
     if kind == 'in':
         return tmpl(seq=[val], **extra)
+    if kind in STORED_CTXS:
+        # the marked value is stored ON a template (a default given at construction, a variable set with var()) and
+        # possibly travels through a copy of that template made from its state; the template is built here, from
+        # the same class and source, because the cached one must not keep per-case values
+        import copy
+        cls = tmpl.__class__
+        src = tmpl.read_raw()
+        if kind == 'defmap':
+            t = cls(src, {'x': val})
+        elif kind == 'var':
+            t = cls(src)
+            t.var(x=val)
+        else:
+            t = cls(src, x=val)
+        if kind == 'copied':
+            t = copy.copy(t)
+        elif kind == 'state':
+            st = t.__getstate__()
+            n = cls.__new__(cls)
+            if hasattr(n, '__setstate__'):
+                n.__setstate__(st)
+            else:
+                n.__dict__.update(st)
+            t = n
+        elif kind == 'rendered_then_copied':
+            t(**extra)
+            t = copy.copy(t)
+        return t(**extra)
     raise ValueError(kind)
 
 
